@@ -275,8 +275,229 @@ static void do_case(const std::vector<int>& h) {
     auto& f = g_viol[key];
     if (f.what.empty() || best.size() < f.h.size()) f = {best, what};
 }
-static void flush_violations() {
+static void flush_violations_1() {
     for (auto& [key, f] : g_viol) R->violation(key, f.what, "{\"case\": " + vf::jstr(vf::join_ints(f.h)) + ", \"history\": " + vf::jstr(hist_str(f.h)) + "}");
+}
+
+// =====================================================================================================
+// Regime M — three quantities with cross references (B refers to A, C refers to B) at field, well or
+// group level; every kind of (re)declaration in every order.
+//
+// Events (15):  ASSIGN A 3.5 | DEFINE A in + 1 | DEFINE A in * 2 | UPDATE A OFF|ON|NEXT |
+//               ASSIGN B 7.25 | DEFINE B A + 1 | DEFINE B A * 2 | UPDATE B OFF|ON|NEXT |
+//               ASSIGN C 1.5 | DEFINE C B * 3 | next report step
+// with `in` = FOPR / WOPR / GOPR and A, B, C = FU_A.. / WU_A.. / GU_A.. .
+//
+// Reference semantics: the input order of the quantities is the order of their first appearance in any
+// ASSIGN/DEFINE record and never changes afterwards (a quantity that entered as ASSIGN and is DEFINEd later
+// keeps its place).  At every evaluation the ASSIGNs entered since the last evaluation are applied first;
+// then the quantities that are currently DEFINEd (update mode not OFF) are evaluated in input order, each
+// seeing the values the earlier quantities got in this same evaluation and the previous values of later ones.
+// A quantity that does not exist yet is undefined.  Every quantity is compared after every evaluation in
+// UDQState and SummaryState.
+enum { MA_ASG, MA_D1, MA_D2, MA_OFF, MA_ON, MA_NEXT, MB_ASG, MB_D1, MB_D2, MB_OFF, MB_ON, MB_NEXT, MC_ASG, MC_D1, MSTEP, MNEV };
+static const int MTRAIL = 3;
+struct Level { char c; const char* in; int n; };
+static const Level LEVELS[] = {{'F', "FOPR", 1}, {'W', "WOPR", 3}, {'G', "GOPR", 2}};
+static std::string qname(char lv, int q) { return std::string(1, lv) + "U_" + char('A' + q); }
+static std::string mev_str(char lv, int ev) {
+    const std::string A = qname(lv, 0), Bq = qname(lv, 1), C = qname(lv, 2);
+    const std::string in = lv == 'F' ? "FOPR" : lv == 'W' ? "WOPR" : "GOPR";
+    switch (ev) {
+    case MA_ASG: return "ASSIGN " + A + " 3.5";   case MA_D1: return "DEFINE " + A + " " + in + " + 1"; case MA_D2: return "DEFINE " + A + " " + in + " * 2";
+    case MA_OFF: return "UPDATE " + A + " OFF";   case MA_ON: return "UPDATE " + A + " ON";             case MA_NEXT: return "UPDATE " + A + " NEXT";
+    case MB_ASG: return "ASSIGN " + Bq + " 7.25"; case MB_D1: return "DEFINE " + Bq + " " + A + " + 1"; case MB_D2: return "DEFINE " + Bq + " " + A + " * 2";
+    case MB_OFF: return "UPDATE " + Bq + " OFF";  case MB_ON: return "UPDATE " + Bq + " ON";            case MB_NEXT: return "UPDATE " + Bq + " NEXT";
+    case MC_ASG: return "ASSIGN " + C + " 1.5";   case MC_D1: return "DEFINE " + C + " " + Bq + " * 3";
+    default: return "STEP";
+    }
+}
+static std::string mhist_str(char lv, const std::vector<int>& h) { std::string s; for (size_t i = 0; i < h.size(); ++i) { if (i) s += " ; "; s += mev_str(lv, h[i]); } return s.empty() ? "(empty)" : s; }
+static OD minput(char lv, int r, int i) { return lv == 'F' ? OD(fopr(r)) : lv == 'W' ? wopr(r, i) : gopr(r, i); }
+
+struct QM {
+    bool has_def = false, has_assign = false, active_define = false;
+    int expr = 0; Mode mode = ON; bool next_consumed = false; OD pending; int order = -1;
+    std::vector<OD> value;
+};
+struct MModel {
+    char lv; int n; QM q[3]; int norder = 0;
+    std::vector<OD> mid[3];            // values after the ASSIGNs of this evaluation, before any DEFINE was evaluated
+    MModel(char l, int nn) : lv(l), n(nn) { for (auto& x : q) x.value.assign(n, std::nullopt); }
+    static int quantity(int ev) { return ev < MB_ASG ? 0 : ev < MC_ASG ? 1 : 2; }
+    bool enabled(int ev) const {
+        if (ev == MSTEP) return true;
+        const QM& x = q[quantity(ev)];
+        const bool upd = ev == MA_OFF || ev == MA_ON || ev == MA_NEXT || ev == MB_OFF || ev == MB_ON || ev == MB_NEXT;
+        return !upd || x.has_def || x.has_assign;
+    }
+    void apply(int ev) {
+        if (ev == MSTEP) return;
+        QM& x = q[quantity(ev)];
+        auto appear = [&]() { if (x.order < 0) x.order = norder++; };
+        switch (ev) {
+        case MA_ASG: case MB_ASG: case MC_ASG: appear(); x.pending = ev == MA_ASG ? 3.5 : ev == MB_ASG ? 7.25 : 1.5; x.has_assign = true; x.active_define = false; break;
+        case MA_D1: case MB_D1: case MC_D1: appear(); x.has_def = true; x.active_define = true; x.expr = 1; x.mode = ON; x.next_consumed = false; break;
+        case MA_D2: case MB_D2: appear(); x.has_def = true; x.active_define = true; x.expr = 2; x.mode = ON; x.next_consumed = false; break;
+        case MA_OFF: case MB_OFF: if (x.has_def) { x.mode = OFF; x.next_consumed = false; } break;
+        case MA_ON: case MB_ON: if (x.has_def) { x.mode = ON; x.next_consumed = false; } break;
+        case MA_NEXT: case MB_NEXT: if (x.has_def) { x.mode = NEXT; x.next_consumed = false; } break;
+        }
+    }
+    // value of quantity k's defining expression given operand values `src` (of the quantity it refers to; summary input for A)
+    std::vector<OD> expr_value(int k, int r, const std::vector<OD>& src) const {
+        std::vector<OD> v;
+        for (int i = 0; i < n; ++i) {
+            OD o = k == 0 ? minput(lv, r, i) : src[i];
+            if (!o) { v.push_back(std::nullopt); continue; }
+            v.push_back(k == 2 ? *o * 3 : q[k].expr == 1 ? *o + 1 : *o * 2);
+        }
+        return v;
+    }
+    // what[k]: 'a' assigned, 'd' definition evaluated, 'k' kept
+    void evaluate(int r, char what[3]) {
+        for (int k = 0; k < 3; ++k) { what[k] = 'k'; if (q[k].pending) { q[k].value.assign(n, q[k].pending); q[k].pending.reset(); what[k] = 'a'; } mid[k] = q[k].value; }
+        for (int o = 0; o < norder; ++o) for (int k = 0; k < 3; ++k) {
+            if (q[k].order != o || !q[k].active_define || q[k].mode == OFF) continue;
+            q[k].value = expr_value(k, r, k == 0 ? q[0].value : q[k - 1].value); what[k] = 'd';
+            if (q[k].mode == NEXT) { q[k].mode = OFF; q[k].next_consumed = true; }
+        }
+    }
+    std::string key() const {
+        std::string s(1, lv);
+        for (const QM& x : q) { s += x.has_def ? 'D' : '-'; s += x.has_assign ? 'A' : '-'; s += x.active_define ? 'd' : 'a'; s += char('0' + x.expr); s += char('0' + x.mode); s += x.pending ? 'p' : '-'; s += char('0' + x.order + 1); }
+        return s;
+    }
+};
+static bool menabled(char lv, int n, const std::vector<int>& h) { MModel m(lv, n); for (int ev : h) { if (!m.enabled(ev)) return false; m.apply(ev); } return true; }
+
+static std::string mdeck_text(char lv, const std::vector<int>& h) {
+    std::string s = deck_text({});                       // base deck + tail + TRAIL steps of regime 1 ...
+    s.erase(s.find("UDQ\n DEFINE WUY"));                 // ... without them
+    for (int ev : h) {
+        if (ev == MSTEP) s += "TSTEP\n 1 /\n";
+        else { s += "UDQ\n "; s += mev_str(lv, ev); s += " /\n/\n"; }
+    }
+    for (int i = 0; i < MTRAIL; ++i) s += "TSTEP\n 1 /\n";
+    return s;
+}
+
+static std::string mcheck(const Level& L, const std::vector<int>& h, std::string& what_out, bool record) {
+    const char lv = L.c; const int n = L.n;
+    const std::string hs = std::string(1, lv) + "-level history [" + mhist_str(lv, h) + "]";
+    std::unique_ptr<Opm::Schedule> sched;
+    try {
+        auto deck = B->parser.parseString(mdeck_text(lv, h));
+        if (!B->es) B->es = std::make_unique<Opm::EclipseState>(deck);
+        sched = std::make_unique<Opm::Schedule>(deck, *B->es, B->python);
+    } catch (const std::exception& e) {
+        what_out = "building Schedule for " + hs + " throws: " + std::string(e.what()).substr(0, 200);
+        return "C17:hist:schedule-rejects-history";
+    }
+    const double undef = sched->getUDQConfig(0).params().undefinedValue();
+    Opm::SummaryState st(Opm::TimeService::from_time_t(sched->getStartTime()), undef);
+    Opm::UDQState udq_state(undef);
+    MModel m(lv, n);
+    size_t pos = 0; std::string trace;
+    const int nsteps = int(sched->size()) - 1;
+    for (int r = 1; r <= nsteps; ++r) {
+        while (pos < h.size() && h[pos] != MSTEP) { m.apply(h[pos]); ++pos; }
+        if (pos < h.size()) ++pos;
+        if (record) g_states.insert(m.key());
+        const MModel mb = m;
+        char what[3]; m.evaluate(r, what);
+        for (int w = 0; w < 3; ++w) { if (OD o = wopr(r, w)) st.update_well_var(WELLS[w], "WOPR", *o); else st.erase_well_var(WELLS[w], "WOPR"); }
+        for (int g = 0; g < 2; ++g) { st.update_group_var(GROUPS[g], "GWPR", 1.0 + g); if (OD o = gopr(r, g)) st.update_group_var(GROUPS[g], "GOPR", *o); else st.erase_group_var(GROUPS[g], "GOPR"); }
+        st.update("FOPR", fopr(r));
+        try {
+            sched->getUDQConfig(r - 1).eval(r, sched->wellMatcher(r), sched->segmentMatcherFactory(r),
+                                            []() { return std::unique_ptr<Opm::RegionSetMatcher>{}; }, st, udq_state);
+        } catch (const std::exception& e) {
+            const std::string msg = e.what();
+            what_out = hs + ": UDQConfig::eval at report step " + std::to_string(r) + " throws: " + msg.substr(0, 200);
+            if (msg.find("not yet implemented") != std::string::npos) return std::string("C17:hist:eval-throws:not-implemented:") + (lv == 'F' ? "field" : lv == 'W' ? "well" : "group") + "-level";
+            return "C17:hist:eval-throws";
+        }
+        // compare in input order (quantities that never appeared must be unknown to both states)
+        std::vector<int> order; for (int o = 0; o < m.norder; ++o) for (int k = 0; k < 3; ++k) if (m.q[k].order == o) order.push_back(k);
+        for (int k = 0; k < 3; ++k) if (m.q[k].order < 0) order.push_back(k);
+        for (int k : order) {
+            const std::string nm = qname(lv, k);
+            std::vector<OD> us, ss;
+            for (int i = 0; i < n; ++i) {
+                if (lv == 'W') { us.push_back(udq_state.has_well_var(WELLS[i], nm) ? OD(udq_state.get_well_var(WELLS[i], nm)) : std::nullopt); ss.push_back(st.has_well_var(WELLS[i], nm) ? OD(st.get_well_var(WELLS[i], nm)) : std::nullopt); }
+                else if (lv == 'G') { us.push_back(udq_state.has_group_var(GROUPS[i], nm) ? OD(udq_state.get_group_var(GROUPS[i], nm)) : std::nullopt); ss.push_back(st.has_group_var(GROUPS[i], nm) ? OD(st.get_group_var(GROUPS[i], nm)) : std::nullopt); }
+                else { us.push_back(udq_state.has(nm) ? OD(udq_state.get(nm)) : std::nullopt); ss.push_back(st.has(nm) ? OD(st.get(nm)) : std::nullopt); }
+            }
+            trace += show(us);
+            const std::vector<OD>& want = m.q[k].value;
+            const std::vector<OD>& before = mb.q[k].value;
+            if (!same(us, want)) {
+                const QM& xb = mb.q[k];
+                // operand values: this evaluation's (model) and the previous evaluation's
+                const std::vector<OD>& src_now = k == 0 ? m.q[0].value : m.q[k - 1].value;
+                const std::vector<OD>& src_old = k == 0 ? mb.q[0].value : mb.q[k - 1].value;
+                const std::vector<OD> fresh = xb.has_def ? mb.expr_value(k, r, src_now) : std::vector<OD>(n, std::nullopt);
+                const std::vector<OD> lagged = xb.has_def ? mb.expr_value(k, r, src_old) : std::vector<OD>(n, std::nullopt);
+                bool stale = true; for (int i = 0; i < n; ++i) { const bool eq = us[i].has_value() == want[i].has_value() && (!us[i] || std::fabs(*us[i] - *want[i]) <= 1e-12 * std::fabs(*us[i])); if (!eq && !(us[i] && !want[i])) stale = false; }
+                std::string key = "C17:hist:multi:value-mismatch";
+                // the definition was evaluated, but with its operand's value of another moment of this evaluation
+                // (before / after the operand's own re-evaluation): DEFINEs not evaluated in input order
+                const std::vector<OD> midv = xb.has_def && k > 0 ? mb.expr_value(k, r, m.mid[k - 1]) : std::vector<OD>(n, std::nullopt);
+                if (what[k] == 'd' && k > 0 && ((same(us, lagged) && !same(lagged, want)) || (same(us, midv) && !same(midv, want)) || (same(us, fresh) && !same(fresh, want)))) key = "C17:hist:define-evaluation-order";
+                else if (what[k] == 'k' && xb.active_define && same(us, fresh) && !same(fresh, before)) key = xb.next_consumed ? "C17:hist:next-evaluated-again" : "C17:hist:update-off-ignored";
+                else if (what[k] == 'k' && xb.active_define && xb.next_consumed && k > 0 && ((same(us, lagged) && !same(lagged, before)) || (same(us, midv) && !same(midv, before)))) key = "C17:hist:next-evaluated-again";
+                else if (what[k] == 'd' && same(us, before)) key = xb.mode == NEXT ? "C17:hist:update-next-not-evaluated" : "C17:hist:define-not-evaluated";
+                else if (what[k] == 'd' && xb.pending && same(us, std::vector<OD>(n, xb.pending))) key = "C17:hist:assign-overrides-later-define";
+                else if (what[k] == 'a' && xb.has_def && (same(us, fresh) || same(us, lagged))) key = "C17:hist:define-overrides-later-assign";
+                else if (what[k] == 'a' && same(us, before)) key = "C17:hist:assign-not-applied";
+                else if (stale) key = "C17:hist:udqstate-keeps-undefined-element";
+                what_out = hs + " then report steps: at step " + std::to_string(r) + " " + nm + " = " + show(us) + " (UDQState), model = " + show(want)
+                         + " (model: " + (what[k] == 'a' ? "assigned" : what[k] == 'd' ? "definition evaluated in input order" : "kept") + ", previous " + show(before) + ")";
+                return key;
+            }
+            std::vector<OD> ss_norm = ss; for (auto& x : ss_norm) if (x && *x == undef) x.reset();
+            if (!same(ss_norm, want)) {
+                what_out = hs + " step " + std::to_string(r) + " " + nm + ": UDQState " + show(us) + " SummaryState " + show(ss) + " model " + show(want);
+                return "C17:hist:summary-state-differs-from-udq-state";
+            }
+        }
+    }
+    if (record) {
+        R->traces_validated++;
+        R->observe(std::string(1, lv) + trace);
+        if (R->evaluations % 997 == 1) R->sample_str(std::string(1, lv) + ": " + mhist_str(lv, h) + "  =>  " + trace);
+    }
+    return "";
+}
+
+struct MFound { std::string cs, hist, what; size_t len = 0; };
+static std::map<std::string, MFound> g_mviol;
+static void do_mcase(const Level& L, const std::vector<int>& h) {
+    if (!menabled(L.c, L.n, h)) { R->count(std::string("M") + L.c + ":histories_not_enabled"); return; }
+    const std::string cs = std::string("M") + L.c + ":" + vf::join_ints(h);
+    R->current(cs + " = " + mhist_str(L.c, h));
+    R->evaluations++; R->transitions += h.size(); R->count(std::string("M") + L.c + ":histories");
+    std::string what;
+    const std::string key = mcheck(L, h, what, true);
+    if (key.empty()) return;
+    R->count("viol:" + key);
+    std::vector<int> best = h; bool shrunk = true;
+    while (shrunk) {
+        shrunk = false;
+        for (size_t i = 0; i < best.size(); ++i) {
+            std::vector<int> c = best; c.erase(c.begin() + i);
+            std::string w2;
+            if (menabled(L.c, L.n, c) && mcheck(L, c, w2, false) == key) { best = c; what = w2; shrunk = true; break; }
+        }
+    }
+    auto& f = g_mviol[key];
+    if (f.what.empty() || best.size() < f.len) f = {std::string("M") + L.c + ":" + vf::join_ints(best), mhist_str(L.c, best), what, best.size()};
+}
+
+static void flush_violations() {
+    flush_violations_1();
+    for (auto& [key, f] : g_mviol) R->violation(key, f.what, "{\"case\": " + vf::jstr(f.cs) + ", \"history\": " + vf::jstr(f.hist) + "}");
 }
 
 int main(int argc, char** argv) {
@@ -284,19 +505,25 @@ int main(int argc, char** argv) {
     Base base; B = &base;
     const int L = run.thorough() ? 5 : 4;
     run.rule = "all event sequences up to length " + std::to_string(L) + " over {ASSIGN x v1|v2, DEFINE x e1|e2, UPDATE x ON|OFF|NEXT, ASSIGN y (unrelated), next report step} + fixed tail {DEFINE WUY WUX + WOPR; DEFINE FUS SUM(WUY); DEFINE GUZ GOPR * 2; DEFINE FUG SUM(GUZ)} + 4 trailing report steps, "
-               "through real SCHEDULE UDQ keywords; one UDQConfig::eval per report step with carried UDQState/SummaryState and step-dependent summary values in which well/group elements go defined -> undefined -> defined; after every step WUX and (tail) WUY, FUS, GUZ, FUG are read back through UDQState (has/get at well, group, field level) and SummaryState; oracle: reference lifecycle model + element-wise evaluation with undefined propagation; distinct = distinct value traces";
+               "through real SCHEDULE UDQ keywords; one UDQConfig::eval per report step with carried UDQState/SummaryState and step-dependent summary values in which well/group elements go defined -> undefined -> defined; after every step WUX and (tail) WUY, FUS, GUZ, FUG are read back through UDQState (has/get at well, group, field level) and SummaryState; oracle: reference lifecycle model + element-wise evaluation with undefined propagation; "
+               "regime M: all event sequences up to length " + std::to_string(L) + " over the 15 events {ASSIGN A | DEFINE A in+1 | DEFINE A in*2 | UPDATE A OFF|ON|NEXT | ASSIGN B | DEFINE B A+1 | DEFINE B A*2 | UPDATE B OFF|ON|NEXT | ASSIGN C | DEFINE C B*3 | next report step} "
+               "for three cross-referencing quantities at field (FU_A..), well (WU_A..) and group (GU_A..) level + 3 trailing report steps; every quantity compared after every evaluation in UDQState and SummaryState with a model that applies ASSIGNs at their step and evaluates DEFINEs in the order of first appearance of the quantities in the UDQ input; distinct = distinct value traces";
     run.assumptions = {
         "lifecycle model: ASSIGN makes x a constant from that step on; DEFINE (re)defines x with update mode ON; ON = evaluated every step, OFF = frozen, NEXT = evaluated at the next step only then frozen; the later of ASSIGN/DEFINE decides",
         "UPDATE before any ASSIGN/DEFINE of x is not enabled (input rejected); UPDATE of a currently ASSIGNed quantity has no observable effect",
         "one evaluation per report step (sub-steps of a report step are not modelled); ASSIGN uses no well selector (a selector after a DEFINE is ambiguous in the statement)",
         "expressions e1 = WOPR + 1 (well set), e2 = FOPR * 2 (scalar scattered); summary values change every step so stale and fresh evaluations differ",
         "an element that evaluates to undefined must be absent from UDQState and hold the undefined value (UDQPARAM item 3 = -99) in SummaryState; a quantity referenced before it exists is undefined; SUM of an all-undefined set is undefined",
-        "the chained definitions are entered after the history's events, so they are evaluated after WUX (definition order)"};
+        "the chained definitions are entered after the history's events, so they are evaluated after WUX (definition order)",
+        "regime M: the input order of a quantity is fixed by its first ASSIGN/DEFINE record and is kept when it is later switched between ASSIGN and DEFINE; within one evaluation a DEFINE sees this evaluation's values of quantities earlier in that order and the previous values of later ones; a history stops being compared at its first disagreement"};
 
     if (!run.replay_path.empty()) {
-        std::vector<int> h; std::string s = run.replay_path; for (auto& c : s) if (c == ',') c = ' ';
+        std::vector<int> h; std::string s = run.replay_path;
+        const Level* ml = nullptr;
+        if (s.size() >= 3 && s[0] == 'M') { for (auto& l : LEVELS) if (l.c == s[1]) ml = &l; s = s.substr(3); }
+        for (auto& c : s) if (c == ',') c = ' ';
         std::istringstream is(s); int v; while (is >> v) h.push_back(v);
-        do_case(h);
+        if (ml) do_mcase(*ml, h); else do_case(h);
         flush_violations();
         return run.finish();
     }
@@ -307,6 +534,19 @@ int main(int argc, char** argv) {
             int d = 0;
             while (d < len) { if (++h[d] < NEV) break; h[d] = 0; ++d; }
             if (d >= len) break;
+        }
+    }
+    // regime M: three cross-referencing quantities, per level
+    for (const Level& lvl : LEVELS) {
+        const int ML = run.thorough() ? 5 : 4;
+        for (int len = 0; len <= ML; ++len) {
+            std::vector<int> h(len, 0);
+            while (true) {
+                if (run.mine()) { if (run.timed_out()) break; do_mcase(lvl, h); }
+                int d = 0;
+                while (d < len) { if (++h[d] < MNEV) break; h[d] = 0; ++d; }
+                if (d >= len) break;
+            }
         }
     }
     run.count("model_states_seen_by_shard0", run.shard == 0 ? (long long)g_states.size() : 0);
